@@ -414,6 +414,11 @@ def is_(a, b):
             return concrete_of(SBool(a.isnone))
         if a is b:
             return True
+        import enum
+        if isinstance(b, enum.Enum) and isinstance(b, str) and isinstance(a.val, SStr):
+            # an optional field of a string-valued enum type (type invariant: it holds a member of the enum or None): identical to a member
+            # exactly when it is set and has that member's value
+            return concrete_of(And(Not(SBool(a.isnone)), SBool(a.val.t == z3.StringVal(str(b.value)))))
         raise OutOfSubset("identity of optional values")
     if isinstance(a, Sym) or isinstance(b, Sym):
         if a is None or b is None:
